@@ -73,7 +73,9 @@ pub fn generate(sink: &mut Sink, rng: &mut Rng, n: u64) {
     let per_fn = (n / fns.len() as u64).max(2);
     for f in &fns {
         let name = f.identifier();
-        if sweep::EXCLUDED.contains(&name) {
+        // membership of the result in the declared type does not depend on WHICH value a nondeterministic
+        // function returns
+        if sweep::NETWORK.contains(&name) {
             sink.count("c03:excluded_functions");
             continue;
         }
